@@ -20,8 +20,8 @@ meta.update({
         "demo_changed": "PROPERTY VIOLATED / exit 1" if re.search(r"PROPERTY VIOLATED.*\nexit 1", log) else "see log",
     },
     "check": f"REDRESS_SRC=<changed tree>/src ./check {prop}",
-    "check_exit": (lambda sec: 1 if ("VIOLATION property=" in sec or re.search(r"^exit 1", sec, re.M)) else (
-        0 if re.search(r"^exit 0", sec, re.M) else None))(log.split("== ./check", 1)[1] if "== ./check" in log else ""),
+    "check_exit": (lambda sec: 1 if ("VIOLATION property=" in sec or re.search(r"^(check )?exit 1", sec, re.M)) else (
+        0 if re.search(r"^(check )?exit 0", sec, re.M) else None))(log.split("== ./check", 1)[1] if "== ./check" in log else ""),
     "failed_obligations": failed[:12],
     "native_replay_found_input": bool(re.search(r"VIOLATION property=\S+ replay=\S+$", log, re.M)),
 })
